@@ -24,15 +24,39 @@ def install_recorder():
   return rec
 
 
-def tcp_session(cls, segments, rec, keep=False):
-  """Feed `segments` to a fresh protocol instance.  Returns dict(got, exc, disconnecting, exc_at)."""
+class FakeUDPPort(object):
+  """What a DatagramProtocol sees of twisted's udp.Port: loseConnection() / stopListening() close the socket for good."""
+
+  def __init__(self):
+    self.closed = False
+
+  def loseConnection(self):
+    self.closed = True
+
+  stopListening = loseConnection
+
+  def getHost(self):
+    from twisted.internet.address import IPv4Address
+    return IPv4Address('UDP', '0.0.0.0', 2003)
+
+  def write(self, *a, **k):
+    pass
+
+
+def tcp_session(cls, segments, rec, keep=False, clock=None, gaps=None):
+  """Feed `segments` to a fresh protocol instance.  Returns dict(got, exc, disconnecting, exc_at).
+  With `clock` (a task.Clock) the protocol's timers run on it and gaps[i] seconds pass before segment i."""
   p = cls()
   t = StringTransport()
+  if clock is not None:
+    p.callLater = clock.callLater        # TimeoutMixin's hook for its idle timer
   p.makeConnection(t)
   rec.take()
   exc = None
   exc_at = None
   for i, seg in enumerate(segments):
+    if clock is not None and gaps:
+      clock.advance(gaps[i % len(gaps)])
     if t.disconnecting:
       break          # loseConnection() stops reading (twisted's FileDescriptor): nothing more is delivered to the protocol
     try:
@@ -54,20 +78,31 @@ def close(p):
     pass
 
 
-def udp_session(datagrams, rec, proto=None):
+def udp_session(datagrams, rec, proto=None, clock=None, gaps=None):
+  """With `clock` the receiver is attached to a port stand-in, its timers run on the clock and gaps[i] seconds pass
+  before datagram i; datagrams arriving after the receiver closed its port are lost (as on a real socket)."""
   from carbon.protocols import MetricDatagramReceiver
   p = proto or MetricDatagramReceiver()
+  port = None
+  if clock is not None:
+    p.callLater = clock.callLater
+    port = FakeUDPPort()
+    p.makeConnection(port)
   rec.take()
   exc = None
   exc_at = None
   for i, d in enumerate(datagrams):
+    if clock is not None and gaps:
+      clock.advance(gaps[i % len(gaps)])
+    if port is not None and port.closed:
+      continue
     try:
       p.datagramReceived(d, ('10.1.2.3', 4444))
     except Exception as e:
       exc = e
       exc_at = i
       # a datagram protocol survives (twisted logs the error); keep feeding the following datagrams
-  return dict(got=rec.take(), exc=exc, exc_at=exc_at)
+  return dict(got=rec.take(), exc=exc, exc_at=exc_at, port_closed=bool(port is not None and port.closed))
 
 
 def cut(data, positions):
